@@ -550,6 +550,18 @@ func hostMapKeys(kind string) []interface{} {
 		return []interface{}{9.0, 10.0, 5.5, 2.0, 1e19, 100.25}
 	case "string":
 		return []interface{}{"a", "a ", "A", "", "\"a\"", "é"}
+	case "iface-colliding":
+		// map[interface{}]string: distinct Go keys that denote the same number
+		return []interface{}{1, 1.0, int8(1), 2.5, float32(3.5), uint16(7)} // one colliding number only: the error names it
+	case "iface-distinct":
+		return []interface{}{1, 2.0, int8(3), 2.5, float32(0.5), uint16(7)}
+	case "ptr-colliding":
+		// map[*int]string: distinct pointers to equal numbers
+		p := func(i int) *int { return &i }
+		return []interface{}{p(7), p(7), p(8), p(9), p(10), p(7)}
+	case "ptr-distinct":
+		p := func(i int) *int { return &i }
+		return []interface{}{p(7), p(8), p(9), p(10), p(11), p(12)}
 	default:
 		return []interface{}{int64(0), int64(1), int64(-1), int64(1) << 53, int64(1)<<53 + 1, int64(-1) << 62}
 	}
@@ -562,7 +574,11 @@ func checkHostMap(c *HostMapCase) *Outcome {
 	}
 	keys = keys[:c.N]
 	build := func() map[string]interface{} {
-		mt := reflect.MapOf(reflect.TypeOf(keys[0]), reflect.TypeOf(""))
+		kt := reflect.TypeOf(keys[0])
+		if strings.HasPrefix(c.Kind, "iface-") {
+			kt = reflect.TypeOf((*interface{})(nil)).Elem()
+		}
+		mt := reflect.MapOf(kt, reflect.TypeOf(""))
 		mv := reflect.MakeMap(mt)
 		env := map[string]interface{}{}
 		for i, k := range keys {
@@ -621,12 +637,12 @@ func checkHostMap(c *HostMapCase) *Outcome {
 var c13hostmap = Register(&Prop[HostMapCase]{ID: "C13", Name: "host-map-order", Check: checkHostMap})
 
 func TestC13(t *testing.T) {
-	R.Rule = "histories of 3-25 operations over a pool of <= 4 expressions (results with multi-entry maps, objects, set operations, string(x), print), three engine instances (VM, closure, VM) and deliberately reused environment objects (one raw *types.Env, two raw *val.Env with different contents, host structs and maps): compile(expr, type object) on engine i; invoke(callable, value object); one-shot Eval; Debug; render an earlier result 16 times; one compile in three wraps the expression in a template calling the identity host function nest, and while nest runs inside an invocation another callable - possibly the very one being evaluated - is invoked to completion (an invocation nested in an evaluation, depth <= 2); oracle after every step: outcome = the reference evaluator on (expression, environment contents) alone, captured standard output = exactly the print lines, host values deep-equal to an identically built twin, every binding of the raw value environments reads as before, renderings never vary, an environment object used once is accepted again; plus Go maps as host data (time keys within one second and in two zones, neighbouring floats, strings, large integers; 2-6 entries) evaluated 24 times each through string / len / == / get / isset / subscript with identical outcomes; plus repeated fresh evaluation of single programs (6 x 2 back ends) with identical result text and output; plus one source text (13 templates over overloaded / polymorphic built-ins) compiled 2-5 times on ONE engine against environments that give its variables different types, each step compared with a fresh engine, and the same text parsed once (Expr.Parse) with that one tree compiled at every step (Expr.CompileExpr), closures compiled earlier re-invoked after every later compilation; non-trivial = an environment object reused after another operation and a result with a multi-entry map or >= 2 results"
+	R.Rule = "histories of 3-25 operations over a pool of <= 4 expressions (results with multi-entry maps, objects, set operations, string(x), print), three engine instances (VM, closure, VM) and deliberately reused environment objects (one raw *types.Env, two raw *val.Env with different contents, host structs and maps): compile(expr, type object) on engine i; invoke(callable, value object); one-shot Eval; Debug; render an earlier result 16 times; one compile in three wraps the expression in a template calling the identity host function nest, and while nest runs inside an invocation another callable - possibly the very one being evaluated - is invoked to completion (an invocation nested in an evaluation, depth <= 2); oracle after every step: outcome = the reference evaluator on (expression, environment contents) alone, captured standard output = exactly the print lines, host values deep-equal to an identically built twin, every binding of the raw value environments reads as before, renderings never vary, an environment object used once is accepted again; plus Go maps as host data (time keys within one second and in two zones, neighbouring floats, strings, large integers, interface{} and pointer keys that do / do not denote the same number; 2-6 entries) evaluated 24 times each through string / len / == / get / isset / subscript with identical outcomes; plus repeated fresh evaluation of single programs (6 x 2 back ends) with identical result text and output; plus one source text (13 templates over overloaded / polymorphic built-ins) compiled 2-5 times on ONE engine against environments that give its variables different types, each step compared with a fresh engine, and the same text parsed once (Expr.Parse) with that one tree compiled at every step (Expr.CompileExpr), closures compiled earlier re-invoked after every later compilation; non-trivial = an environment object reused after another operation and a result with a multi-entry map or >= 2 results"
 	R.Assume = []string{"ref.Eval and the characterised rendering of print"}
 	reportKnown(t, "C13")
 	runRegress(t, "C13")
 	c13hostmap.Each(t, "host-map-kinds", func(yield func(*HostMapCase) bool) {
-		for _, k := range []string{"time-subsecond", "time-zones", "float-neighbours", "float-mixed", "string", "int"} {
+		for _, k := range []string{"time-subsecond", "time-zones", "float-neighbours", "float-mixed", "string", "int", "iface-colliding", "iface-distinct", "ptr-colliding", "ptr-distinct"} {
 			for n := 2; n <= 6; n++ {
 				if !yield(&HostMapCase{Kind: k, N: n}) {
 					return
